@@ -189,6 +189,16 @@ def r3(ctx, rep, prog):
             if agg(prog.bodies[ck], 'parser::ParseError', e):
                 found = ck
         site = {'file': b['file'], 'line': b['line']}
+        direct = agg(b, 'parser::ParseError', e)
+        if not found and direct and alg:
+            # early-return form (`let Some(x) = opt else { return Err(..) }` / match): same dominance argument as above
+            ok = False
+            for ea in direct:
+                c = b['idom'][ea['bb']]
+                if c != -1 and all(prog.dominates(b, c, aa['bb']) and aa['bb'] not in prog.reachable_blocks(b, ea['bb']) for aa in alg):
+                    ok = True
+            rep.check(ok, 'R3', f'parse_enum:{e}', f'the test yielding ParseError::{e} dominates the construction of RustEnum::Algebraic', f'parse_enum: RustEnum::Algebraic can be built without passing the test that yields ParseError::{e}', site)
+            continue
         if not found:
             rep.fail('R3', f'parse_enum:{e}', f'parse_enum never constructs ParseError::{e}: a data-carrying enum without both serde tag and content is no longer rejected', site)
             continue
@@ -229,8 +239,12 @@ def r4(ctx, rep):
         # flatten test in the same closure, before the construction
         cl_frames = [fr for fr in st['guard'] if fr.get('k') == 'closure']
         cid = cl_frames[-1]['id'] if cl_frames else None
-        fl = [c for c in f['calls'] if c.get('f') == 'serde_flatten' and any(fr.get('k') == 'closure' and fr.get('id') == cid for fr in c['guard'])]
-        errs = [r for r in f['returns'] if 'SerdeFlattenNotAllowed' in vt.show(r.get('v')) and any(fr.get('k') == 'closure' and fr.get('id') == cid for fr in r['guard'])]
+        h = st.get('home') or f   # the function that physically contains the literal (a helper, or the parser itself)
+
+        def same_scope(x):
+            return cid is None or any(fr.get('k') == 'closure' and fr.get('id') == cid for fr in x['guard'])
+        fl = [c for c in h['calls'] if c.get('f') == 'serde_flatten' and same_scope(c)]
+        errs = [r for r in h['returns'] if 'SerdeFlattenNotAllowed' in vt.show(r.get('v')) and same_scope(r)]
         rep.check(bool(fl) and bool(errs), 'R4', f"{f['name']}:flatten-rejected", 'serde(flatten) on a field is rejected', f"{f['name']}: fields built here are not tested for serde(flatten) (the sibling builder in parse_struct is): a flattened struct-variant field is emitted as an ordinary field", site)
         tyv = st['v']['fields'].get('ty')
         txt = json.dumps(tyv)
